@@ -422,6 +422,26 @@ def correspond(ctx, scale):
                                 same(omx[:, si:si + 1], o1s, 'outputs', key + ':on-code-single', f'{m["name"]} one on-code token alone vs in batch')
                             if i1s is not None:
                                 same(imx[:, si:si + 1], i1s, 'indices', key + ':on-code-single', f'{m["name"]} one on-code token alone vs in batch')
+                    # (3c) memory layout of the input: the same values in non-contiguous / strided / offset / channels-last / expanded storage give the same
+                    # results, and the caller's tensor is left untouched (a token's result depends on its value, not on where it lives)
+                    if rep < 3:
+                        from vlib import callzoo
+                        xin = to_layout(xs, lay, hw)
+                        cands = callzoo.layout_variants(torch, xin)
+                        xrep = to_layout(xs[:1].expand(*xs.shape).contiguous(), lay, hw)
+                        cands += [(nm + '/equal-rows', v) for nm, v in callzoo.layout_variants(torch, xrep) if nm == 'expanded-batch']
+                        for vname, xv in cands:
+                            base = xin if '/equal-rows' not in vname else xrep
+                            keep = xv.clone()
+                            ob_, ib_ = run(mod, m, base, frozen)
+                            ov_, iv_ = run(mod, m, xv, frozen)
+                            dist['memory_layout_variants'] = dist.get('memory_layout_variants', 0) + 1
+                            if ob_ is not None:
+                                same(ob_, ov_, 'outputs', key + ':memory-layout:' + vname.split('/')[0], f'{m["name"]} ({lay}) input as {vname}')
+                            if ib_ is not None and not grouped:
+                                same(ib_, iv_, 'indices', key + ':memory-layout:' + vname.split('/')[0], f'{m["name"]} ({lay}) input as {vname}')
+                            if not torch.equal(torch.nan_to_num(xv, nan=7.0), torch.nan_to_num(keep, nan=7.0)):
+                                failures.append({'key': key + ':input-modified-in-place', 'what': f'{m["name"]} ({lay}): the caller\'s input tensor ({vname}) was modified by the call', 'case': dict(name=m['name'], layout=lay)})
                     # (4) layout equivalence: the same per-vector results as the flattened channel-last sequence
                     if lay != 'seq' and 'seq' in m['layouts']:
                         ref = m['mk']('seq')
@@ -455,7 +475,12 @@ def correspond(ctx, scale):
             mm = torch.arange(nm)[None, :] < torch.tensor(lens_m)[:, None]
             xm = torch.randn(bm, nm, 6)
             with torch.no_grad():
-                om, im, _ = vm(torch.where(mm[..., None], xm, torch.full_like(xm, 50.0)), mask=mm)
+                xpad = torch.where(mm[..., None], xm, torch.full_like(xm, 50.0))
+                if mi % 2 == 1:
+                    # the padded batch handed over as a dense PERMUTED VIEW (conv features viewed channel-last / a time-major batch viewed batch-first)
+                    xpad = xpad.permute(2, 0, 1).contiguous().permute(1, 2, 0) if mi % 4 == 1 else xpad.transpose(0, 1).contiguous().transpose(0, 1)
+                    dist['masked_permuted_view_batches'] = dist.get('masked_permuted_view_batches', 0) + 1
+                om, im, _ = vm(xpad, mask=mm)
                 bad_pos = []
                 for bi in range(bm):
                     for ti in range(lens_m[bi]):
